@@ -145,6 +145,10 @@ func init() {
 		"(*time.Timer).Reset": func(ex *Exec, fr *frame, a []value) value { return ex.C.Bool(true) },
 		"time.runtimeNano": func(ex *Exec, fr *frame, a []value) value { return ex.C.Const(64, uint64(ex.fakeTime)) },
 
+		// --- crypto/subtle.XORBytes (the real one compares raw pointers to reject inexact overlap) ---
+		"crypto/subtle.XORBytes":                  subtleXORBytes,
+		"crypto/internal/fips140/subtle.XORBytes": subtleXORBytes,
+
 		// --- internal/bytealg ---
 		"internal/bytealg.IndexByte":       bytealgIndexByte,
 		"internal/bytealg.IndexByteString": bytealgIndexByte,
@@ -260,6 +264,27 @@ func bytealgIndexByte(ex *Exec, fr *frame, a []value) value {
 		}
 	}
 	return ex.C.Const(64, ^uint64(0))
+}
+
+// subtleXORBytes: dst[i] = x[i] ^ y[i] for i < min(len(x), len(y)); panics if dst is shorter than that. Exact
+// overlap (dst aliasing x or y from the same start) is fine because each element is read before it is written;
+// inexact overlap, which the real function refuses with a panic, is not modelled.
+func subtleXORBytes(ex *Exec, fr *frame, a []value) value {
+	dst, x, y := a[0].([]value), a[1].([]value), a[2].([]value)
+	n := len(x)
+	if len(y) < n {
+		n = len(y)
+	}
+	if n == 0 {
+		return ex.C.Const(64, 0)
+	}
+	if len(dst) < n {
+		ex.rtPanic("subtle.XORBytes: dst too short")
+	}
+	for i := 0; i < n; i++ {
+		dst[i] = ex.C.Bin(OpBvXor, x[i].(*Term), y[i].(*Term))
+	}
+	return ex.C.Const(64, uint64(n))
 }
 
 func bytealgCount(ex *Exec, fr *frame, a []value) value {
